@@ -108,13 +108,17 @@ class C17(Property):
     rule = ('per function: rate constants log-uniform in [0.05, 20], concentrations log-uniform in [0.01, 10] (initial product 0 in 20 % of '
             'the cases, otherwise positive), t = 0 in 15 % of the cases else log-uniform in [1e-3, 5]; major/minor at least 5 % apart for '
             'binary_irrev; exponents bounded by 60 (no overflow); binary_irrev_cstr: 25 % of the cases start above the steady state '
-            '(known nan region). Each case is evaluated under one of numpy/math/sympy (cycled). A case is non-trivial when it is a '
+            '(known nan region). 22 % of the cases are in the LATE/FAST regime: rate*t log-uniform in [50, 1e5], concentrations rescaled by '
+            'u in [1e-8, 10] and second-order constants by 1/u. Each case is evaluated under one of numpy/math/sympy (cycled). A case is non-trivial when it is a '
             'distinct JSON value.')
     assumptions = ('Float instantiation of the generated model vs the Python float evaluation: relative tolerance 1e-9 of '
                    'max(|value|, largest concentration argument) (cancellation in 1-exp(-x) and in the quadratic-root forms)',
                    'the translator pyfn2lean.py and its reading of the Python subset',
                    'sympy (diff, N with 30 digits) for the oracle; Mathlib Real.exp/sqrt/tanh/artanh as the meaning of the backend functions',
-                   'domain restriction major != minor for binary_irrev (0/0 in the source); kb + kf*major != 0; positive parameters',
+                   'documented domain of binary_irrev: `major` is the MORE abundant reactant (minor <= major; major != minor is required by the '
+                   'code, 0/0 otherwise). With major < minor the formula is still proved (binary_irrev_ode_minor_excess) and exercised for '
+                   'moderate kf*(minor-major)*t, but its growing exponential overflows for kf*(minor-major)*t > 709 - outside the documented '
+                   'domain, not a finding (coordinator triage); kb + kf*major != 0; positive parameters',
                    'binary_irrev_cstr is only claimed below the steady state (r < r_ss): above it the real code returns nan (known finding)')
     clauses_without_theorem = (
         '"can be evaluated with each numeric or symbolic backend they advertise and give the same values": outside the Lean model by '
@@ -126,7 +130,12 @@ class C17(Property):
         'default values are pinned by the *_sig_guard theorems and exercised by the oracle only',
         'binary_irrev_cstr above the steady state (2*k*r**2 + fv*r >= fv*fr): no theorem (known finding, the Python returns nan / raises)',
         'binary_irrev with major == minor: excluded (0/0 in the source for every t)',
-        'Float evaluation vs the real-number closed form (rounding, overflow of exp for large exponents): correspondence with tolerance only',
+        'finiteness of the FLOAT evaluation (overflow of a growing exponential, inf/inf, inf*0): invisible to the theorems, which are about '
+        'real numbers - an algebraically identical rewrite with exp(+kf*t*(major-minor)) keeps every theorem provable but returns nan / '
+        'raises OverflowError for kf*(major-minor)*t > 709. Decided by the oracle only (late/fast regime: rate*t up to 1e5, every backend '
+        'must return a finite value equal to the 100-digit reference; binary_irrev_cstr up to fv*t ~ 1e4 must sit on the steady '
+        'state). binary_irrev is exercised there with major >= minor only (documented domain: `major` is the more abundant reactant)',
+        'Float evaluation vs the real-number closed form (rounding): correspondence with tolerance only',
     )
     anchors = (('chempy/kinetics/integrated.py', None), ('chempy/_util.py', 'get_backend'))
 
@@ -185,8 +194,47 @@ class C17(Property):
                     a['r'] = float('%.6g' % (rss * rng.uniform(1.01, 5)))
                 else:
                     a['r'] = float('%.6g' % (rss * rng.uniform(0.0, 0.98)))
-            cases.append({'fn': fn, 'backend': be, 't': t, 'args': a})
+            case = {'fn': fn, 'backend': be, 't': t, 'args': a}
+            if rng.random() < 0.22:
+                self._make_late(rng, case)
+            cases.append(case)
         return cases
+
+    CONC = ('prod', 'major', 'minor', 'initial_C', 'r', 'p', 'fr', 'fp')
+
+    def _make_late(self, rng, case):
+        """LATE / FAST regime: the dimensionless time theta = (characteristic rate) * t is log-uniform in [50, 1e5] (long after
+        completion), and concentrations are rescaled by u in [1e-8, 10] with the second-order constants divided by u (so that
+        e.g. kf = 1e10, concentrations 1e-7 occur).  The closed forms must stay finite under every backend there.
+        binary_irrev keeps major >= minor there: the docstring defines `major` as the MORE abundant reactant (documented domain;
+        with major < minor the exponential grows and overflows).  binary_irrev_cstr is covered up to fv*t ~ 1e4 and beyond since
+        the repair b386ccb (the product no longer forms exp(fv*t))."""
+        fn, a = case['fn'], case['args']
+        g6 = lambda x: float('%.6g' % x)
+        u = 10 ** rng.uniform(-8, 1)
+        for k_ in self.CONC:
+            if k_ in a:
+                a[k_] = g6(a[k_] * u)
+        second = 'k' if fn == 'binary_irrev_cstr' else 'kf'
+        if second in a:
+            a[second] = g6(a[second] / u)
+        if fn == 'binary_irrev' and a['major'] < a['minor']:
+            a['major'], a['minor'] = a['minor'], a['major']
+        theta = math.exp(rng.uniform(math.log(50), math.log(1e5)))
+        rate = {
+            'dimerization_irrev': lambda: a['kf'] * a['initial_C'],
+            'pseudo_irrev': lambda: a['kf'] * a['major'],
+            'pseudo_rev': lambda: a['kb'] + a['kf'] * a['major'],
+            'binary_irrev': lambda: a['kf'] * (a['major'] - a['minor']),
+            'binary_rev': lambda: a['kb'] + a['kf'] * (a['major'] + a['minor']),
+            'unary_irrev_cstr': lambda: a['fv'] + a['k'],
+            'binary_irrev_cstr': lambda: math.sqrt(a['fv'] * (a['fv'] + 8 * a['k'] * a['fr'])) / 2,
+        }[fn]()
+        t = theta / rate
+        if fn == 'binary_irrev_cstr' and rng.random() < 0.5:
+            t = max(t, rng.uniform(50, 1e4) / a['fv'])       # fv*t up to 1e4 (exp(fv*t) would overflow beyond 709)
+        case['t'] = g6(a.get('t0', 0.0) + t)
+        case['late'] = True
 
     # ---- model side ----------------------------------------------------------------------------------
     def model_case(self, c):
@@ -330,6 +378,21 @@ class C17(Property):
             for x, y in zip(vals['numpy'], vals[be]):
                 if not close(x, y, 1e-9, 1e-9 * scale):
                     return '%s(t=%r, %r): backend numpy gives %r, backend %s gives %r' % (fn, t, a, vals['numpy'], be, vals[be])
+        # (1c) late regime of the stirred tank: the transient has died out, the closed form must sit on the steady state
+        #      A_ss = positive root of 2 k A^2 + fv A - fv fr,  B_ss = fp + n k A_ss^2 / fv   (computed here with 60 digits)
+        if fn == 'binary_irrev_cstr' and c.get('late') and not above_steady_state(a, 1e-9):
+            import mpmath
+            with mpmath.workdps(60):
+                k_, r_, fr_, fp_, fv_, n_ = (mpmath.mpf(a[x]) for x in ('k', 'r', 'fr', 'fp', 'fv', 'n'))
+                half = mpmath.sqrt(fv_ * (fv_ + 8 * k_ * fr_)) / 2
+                ass = (-fv_ + 2 * half) / (4 * k_)
+                x7 = mpmath.atanh(-(fv_ + 4 * k_ * r_) / (2 * half))
+                if fv_ * t > 60 and half * t - abs(x7) > 60:
+                    want = [float(ass), float(fp_ + n_ * k_ * ass ** 2 / fv_)]
+                    for be in forms:
+                        if not all(close(x, y, 1e-9, 1e-9 * scale) for x, y in zip(vals[be], want)):
+                            return ('binary_irrev_cstr(t=%r, %r, backend=%s) = %r long after the transient (fv*t = %.3g), steady state is %r'
+                                    % (t, a, be, vals[be], float(fv_ * t), want))
         # (1a) calling conventions: optional arguments by position / by keyword / omitted, in the DOCUMENTED order
         f = self._conventions(fn, c, t, a, scale)
         if f is not None:
@@ -458,6 +521,8 @@ class C17(Property):
         if c['fn'] == 'binary_irrev_cstr' and not c.get('exact'):
             s += ':above-ss' if above_steady_state(c['args']) else ':below-ss'
         if not c.get('exact'):
+            if c.get('late'):
+                s += ':late'
             if c['t'] == (c['args'].get('t0', 0.0)):
                 s += ':t=start'
             if c['args'].get('prod', c['args'].get('p', 1)) == 0:
